@@ -401,11 +401,11 @@ static void c11_oracle(Ctx &cx, const Input &in, const Outcome &o, const std::st
   std::string cls = in.base ? in.kind : "garbage-" + in.kind;
   if ((o.v.ret || o.d.ret) && auth != 0)
     cx.rep.violation("C11|accepted-not-authentic|" + cls, "success reported for a file that is not authentic", j.done());
-  if (!o.d.ret && (!o.d.writes.empty() || !o.d.out.empty()))
+  if (!o.d.ret && (!o.d.writes.empty() || !o.d.out.empty() || o.d.bytes_written))
     cx.rep.violation("C11|output-on-failure|" + cls, "a failing decryption wrote bytes to its output", j.done());
   if (o.d.ret) {
     cx.rep.count("reached_pipeline");
-    if (o.d.out.size() > body)
+    if (o.d.out.size() > body || o.d.bytes_written > body || o.d.oversize_writes)
       cx.rep.violation("C11|output-larger-than-body|" + cls, "decryption wrote more bytes than the ciphertext body holds", j.done());
     if (body) cx.rep.maxc("max_out_over_body_permille", (long long)(1000 * o.d.out.size() / body));
   } else
